@@ -175,11 +175,12 @@ theorem addData_mem (s : TW) (r : Row) (now : Int) (x : Row) (hx : x ∈ addData
     · exact Or.inr (Or.inr ⟨h, f, hf, by rw [← h]; exact hns⟩)
   · exact Or.inl hx
 
-theorem findFired_inSlot (s : TW) (r : Row) (f : Fired) (h : findFired s r = some f) :
+theorem findFired_inSlot (s : TW) (r : Row) (now : Int) (f : Fired) (h : findFired s r now = some f) :
     inSlot s.size f.start r = true := by
   unfold findFired at h
   have := List.find?_some h
-  simpa using this
+  simp only [Bool.and_eq_true] at this
+  exact this.1
 
 theorem fate_lateUpdate_inSlot (s : TW) (r : Row) (now : Int) (f : Fired) (h : fate s r now = .lateUpdate f) :
     inSlot s.size f.start r = true := by
@@ -189,7 +190,7 @@ theorem fate_lateUpdate_inSlot (s : TW) (r : Row) (now : Int) (f : Fired) (h : f
     · cases h
     · split at h
       · split at h
-        · rename_i g hg; cases h; exact findFired_inSlot s r _ hg
+        · rename_i g hg; cases h; exact findFired_inSlot s r now _ hg
         · cases h
       · cases h
   · cases h
